@@ -189,11 +189,11 @@ Definition spec_chain (ps : list policy) (s : static) (m : meth) : decision :=
 
 (* ---------------------------------------------------------------- policies the theorems cover *)
 
-Definition canon (p : pstr) : bool := match p with PCanon _ => true | _ => false end.
-Definition canon_or_empty (p : pstr) : bool := match p with PCanon _ | PEmpty => true | _ => false end.
-
-(* every access string is one of the lowercase constants ("" where optional) *)
-Definition canonical_rule (r : rule) : bool := canon (r_pol r) && canon_or_empty (r_int r).
-Definition canonical (p : policy) : bool :=
-  canon_or_empty (p_acl p) && canon_or_empty (p_keyring p) && canon_or_empty (p_operator p)
-  && canon_or_empty (p_mesh p) && canon_or_empty (p_peering p) && forallb canonical_rule (p_rules p).
+(* Every rule's access string names a level (any spelling) and a service rule's `intentions` is
+   empty or names a level: what PolicyRules.Validate guarantees for every policy that parses
+   (ACL/Proofs.v validate_levelled).  Nothing is asked of the scalar rules. *)
+Definition has_level (p : pstr) : bool := is_some (doc_level p).
+Definition lev_or_empty (p : pstr) : bool := match p with PBad => false | _ => true end.
+Definition levelled_rule (r : rule) : bool :=
+  has_level (r_pol r) && match r_kind r with KService => lev_or_empty (r_int r) | _ => true end.
+Definition levelled (p : policy) : bool := forallb levelled_rule (p_rules p).
